@@ -129,7 +129,7 @@ def gen_pose_case(rng, max_pts=5, max_frames=4, max_people=3, edge=0.25, dims_ch
     F = rng.choice([0, 1, 1, 2, 3, max_frames])
     P = rng.choice([0, 1, 1, 1, 2, max_people])
     dims = [rng.choice([0, 1, 640, 65535, rng.randrange(0, 65536)]) for _ in range(3)]
-    fps = b64(rng.choice([30.0, 29.97, 25.0, 0.0, 1e-3, 24, 59.94, 1.5]))
+    fps = b64(rng.choice([30.0, 29.97, 25.0, 0.0, 1e-3, 24, 59.94, 1.5, 30000 / 1001, 24000 / 1001, 12.345678]))
     case = {"dims": dims, "comps": comps, "fps": fps, "shape": [F, P, T, D], "cshape": [F, P, T], "dtype": rng.choice(["f32", "f32", "f64", "f64", ">f4", ">f8"]),
             "edge": "none"}
     # how the caller holds limbs / colours / dimensions: Python ints in tuples, or NumPy integer arrays / scalars (what
